@@ -248,6 +248,12 @@ theorem C06_pretty_same_instructions (tk : Name → PTok) (ss : List Ast) (h : G
   rw [C06_pretty_reads_back tk (normList ss) h x hx]
   exact compileStmts_norm ss
 
+/-- the same with the hypothesis in executable form: `goodStmtsB` is evaluated by the model driver on the parse of every
+generated program (`prettytie`), so for each of them this theorem applies as it stands -/
+theorem C06_pretty_same_instructions_checked (tk : Name → PTok) (ss : List Ast) (h : goodStmtsB tk (normList ss) = true)
+    (x : List Ast) (hx : parseToks (prettyProgram tk (normList ss)).toks = some x) : compileStmts x = compileStmts ss :=
+  C06_pretty_same_instructions tk ss (goodStmtsB_sound tk _ h) x hx
+
 /-- a registry for the sample below: `+` binary (level 6) and unary, `*` binary (level 7), `hint` unary -/
 def sampleTk (n : Name) : PTok :=
   if n == [43] then .op .bu 6 n else if n == [42] then .op .b 7 n else if n == n!"hint" then .opU n else .ident n
